@@ -371,6 +371,18 @@ func c06DocOnly(c *Ctx) (evals int64) {
 				st := stringStorage(joinLines(lines) + "\n")
 				e := urlfilter.NewEngine(st)
 				ne := urlfilter.NewNetworkEngine(st)
+				// the DNS engine consults host-level rules only: the document-only
+				// exception (with or without $important) and $domain rules take no part
+				{
+					evals++
+					dres, _ := urlfilter.NewDNSEngine(st).MatchRequest(&urlfilter.DNSRequest{Hostname: "ads.example.com", DNSType: 1})
+					if got, want := c06ClassOfRule(dres.NetworkRule), c06Reference(noDomain, nil, true); got != want {
+						c.Run.Violate(ev.Violation{Pred: "document-only-exception-ignored-for-sub-requests", Sig: map[string]any{"lines": lines, "engine": "dns"},
+							What:   fmt.Sprintf("DNSEngine.MatchRequest over %v for ads.example.com: %s (%s); the browser-only exception takes no part, the host-level rules give %s", lines, renderNetText(dres.NetworkRule), c06ClassNames[got], c06ClassNames[want]),
+							Replay: map[string]any{"doc_only": true}})
+						return evals
+					}
+				}
 				for _, src := range []string{c06Src, ""} {
 					for _, t := range []rules.RequestType{rules.TypeScript, rules.TypeImage, rules.TypeSubdocument} {
 						req := rules.NewRequest(c06URL, src, t)
